@@ -8,6 +8,8 @@ Decided:
          simulation), the interpolation memo of GFunction, the g-function rebuilt from its own fields
   R13.2  mutable defaults: a list / dict / set default argument is only ever read (subscripted, iterated,
          passed on to a parameter that is itself only read)
+  R13.10 no stale derived state (a method replaces an attribute and leaves behind what the constructor computed from it; the
+         three deliberate cases are listed with their reason), no memoised return under a key that leaves out a parameter
   R13.3  no function rebinds or mutates a module-level name
   R13.4  sources of non-determinism (wall clock, random, id / hash, set iteration, environment) occur
          only at the two recorded sites: search time in GHEManager.find_design and the time stamp of the
@@ -227,6 +229,7 @@ def check(prog: Program, tier: str) -> Result:
     _check_param_mutation(prog, res)
     _check_class_level_mutables(prog, res)
     _check_keyless_memos(prog, res)
+    _check_stale_and_memo(prog, res)
     _check_setters(prog, res, ea)
     _check_nominal_height(prog, res)
     return res
@@ -378,6 +381,65 @@ def _check_class_level_mutables(prog: Program, res: Result):
                               f"{c.name}.{a} is a class-level {type(st_.value).__name__.lower() if hasattr(st_, 'value') else 'container'} that {m.name}() changes in place and no constructor rebinds: all instances share it, "
                               "so what one design run records shows up in the next one")
     res.count("classes_scanned", n_cls)
+
+
+STALE_ACCEPT = {
+    ("BaseGHE", "self.gFunction"): "the rebuild uses the object's own coordinates (R13.1 rebuild-passthrough), so nbh and the per-borehole flow stay valid",
+    ("BaseGHE", "self.bhe_eq"): "radial_numerical is told about the new equivalent tube by calc_sts_g_functions(self.bhe_eq) right after (partial_init)",
+    ("RadialNumericalBH", "self.single_u_tube"): "the mesh geometry of the first tube is kept on purpose - stale but self-consistent (DESIGN 10.5); C10 R10.9 guards half-refreshes",
+}
+
+
+def _check_stale_and_memo(prog: Program, res: Result):
+    """R13.10: (a) package-wide stale derived state - a method that replaces an attribute leaves behind what the constructor
+    computed from it (the object then answers from a mixture of old and new inputs: history dependence); the three places
+    where today's code does that on purpose are listed with their reason.  (b) package-wide memoised returns under a key that
+    leaves out a parameter."""
+    from ..derived import stale_derived
+    from ..memo import memo_bypass
+
+    n_links = 0
+    n_cls = 0
+    for cq, c in sorted(prog.classes.items()):
+        n, bad = stale_derived(prog, cq)
+        if not n:
+            continue
+        n_cls += 1
+        n_links += n
+        groups = {}
+        for cls_, m, st_, y, x, how, dstmt in bad:
+            groups.setdefault((c.name, y), []).append((cls_, m, st_, x, how, dstmt))
+        for (cn, y), items in sorted(groups.items()):
+            acc = STALE_ACCEPT.get((cn, y))
+            if acc and (cn, y) == ("BaseGHE", "self.bhe_eq"):
+                # the reason given is itself checked: each method that replaces the tube hands it to the short-time model afterwards
+                for cls_, m, st_, x, how, dstmt in items:
+                    told = any(isinstance(k, ast.Call) and attr_chain(k.func) == "self.radial_numerical.calc_sts_g_functions" and k.args and attr_chain(k.args[0]) == "self.bhe_eq" and k.lineno > st_.lineno
+                               for k in ast.walk(m.node))
+                    if not told:
+                        acc = None
+            if acc:
+                res.ob("R13.10", f"{cn}: {y} is replaced by {sorted({i[1].name for i in items})} without recomputing {sorted({i[3][5:] for i in items})[:4]} - accepted: {acc[:110]}", True, prog.loc(items[0][1], items[0][2]))
+                continue
+            for cls_, m, st_, x, how, dstmt in items[:3]:
+                res.ob("R13.10", f"{cls_.name}.{m.name}: replaces {y}, {x} {how}", False, prog.loc(m, st_))
+                res.violation("R13.10", f"stale|{cls_.name}.{m.name}|{y}|{x}", prog.loc(m, st_), m.qualname,
+                              f"{cls_.name}.{m.name}() replaces {y}, but {x} - which the constructor computed from it ({norm_stmt(dstmt)[:90]}) - {how}: "
+                              "later results mix the old and the new input, i.e. they depend on what the object was used for before")
+        if not bad:
+            res.ob("R13.10", f"{c.name}: nothing the constructor derives from an attribute goes stale when a method replaces it ({n} dependences)", True, f"{c.module.replace('.', '/')}.py:{src_line(c.node)}")
+    res.count("derived_dependences", n_links)
+    res.floor("derived_dependences", 60)
+    n_memo = 0
+    for q, fi in sorted(prog.funcs.items()):
+        for r, store, key, missing in memo_bypass(prog, fi):
+            n_memo += 1
+            ok = not missing
+            res.ob("R13.10", f"{q}: 'return {store}[{key[:40]}]' - the key depends on every parameter", ok, prog.loc(fi, r))
+            if not ok:
+                res.violation("R13.10", f"memo|{q}|{store}|{missing}", prog.loc(fi, r), q,
+                              f"{fi.name}() returns the stored {store}[{key[:60]}] although the key does not depend on {missing}: the answer is the one computed for an earlier call's values of those parameters")
+    res.count("memo_returns", n_memo)
 
 
 def _check_keyless_memos(prog: Program, res: Result):
@@ -690,6 +752,9 @@ def _check_nominal_height(prog: Program, res: Result):
 
 M = "ghedesigner.manager"
 VARIANTS = [
+    Variant("RadialNumericalBH-style half refresh in the GHE: a method replaces the borehole spacing but not what was derived from it", "break",
+            [(GHX, "        self.B_spacing = b_spacing\n", "        self.B_spacing = b_spacing\n        self.B_over_max = self.B_spacing / 400.0\n"),
+             (GHX, "    def as_dict(self) -> dict:\n        output = {}\n        output['title'] = f\"GHEDesigner GHE Output - Version {VERSION}\"", "    def respace(self, b):\n        self.B_spacing = b\n\n    def as_dict(self) -> dict:\n        output = {}\n        output['title'] = f\"GHEDesigner GHE Output - Version {VERSION}\"")], "R13.10"),
     Variant("search keeps the GHEs it built in a table keyed by the rounded height (after seeded C13_e)", "break",
             [("ghedesigner.search_routines", "        self.calculated_temperatures = {}\n\n        if search:\n            self.selection_key, self.selected_coordinates = self.search()\n\n    def retrieve_flow", "        self.calculated_temperatures = {}\n        self.built = {}\n\n        if search:\n            self.selection_key, self.selected_coordinates = self.search()\n\n    def retrieve_flow"),
              ("ghedesigner.search_routines", "        self.searchTracker.append([field_specifier, t_excess, max_hp_eft, min_hp_eft])\n\n        return t_excess\n\n    def search(self):\n        x_l_idx = 0", "        self.searchTracker.append([field_specifier, t_excess, max_hp_eft, min_hp_eft])\n        if self.built.get(round(h)) is None:\n            self.built[round(h)] = self.ghe\n\n        return t_excess\n\n    def search(self):\n        x_l_idx = 0")], "R13.9"),
